@@ -293,18 +293,29 @@ func runChild(t *testing.T, spec *Spec) {
 			}
 			idx := curCase.Load()
 			p0 := progress.Load()
-			c0 := cpuTime()
-			time.Sleep(3 * time.Second)
-			if progress.Load() != p0 {
+			// "Idle" must not be inferred from CPU time: on an overloaded machine a
+			// starved process uses no CPU either. It is read from the scheduler state
+			// instead: three goroutine dumps one second apart in which no goroutine
+			// (other than this watchdog) is running or runnable.
+			idle := true
+			var dump string
+			for k := 0; k < 3 && idle; k++ {
+				time.Sleep(time.Second)
+				buf := make([]byte, 8<<20)
+				n := runtime.Stack(buf, true)
+				dump = string(buf[:n])
+				if anyRunnable(dump) {
+					idle = false
+				}
+			}
+			if progress.Load() != p0 || curCase.Load() != idx {
 				continue
 			}
-			idle := cpuTime()-c0 < 100*time.Millisecond
 			if !idle && age < spec.CaseTimeout {
 				continue
 			}
-			buf := make([]byte, 4<<20)
-			n := runtime.Stack(buf, true)
-			fmt.Fprintf(os.Stderr, "WATCHDOG case=%d idle=%v bubble=%v\n%s\n", idx, idle, spec.Bubble, buf[:n])
+			fmt.Fprintf(os.Stderr, "WATCHDOG case=%d idle=%v bubble=%v\n%s\n", idx, idle, spec.Bubble, dump)
+			buf, n := []byte(dump), len(dump)
 			st.mu.Lock()
 			code := 3
 			switch {
@@ -390,6 +401,25 @@ func runOneCase(t *testing.T, spec *Spec, c *Case) {
 	spec.Run(c)
 }
 
+// RunBubble runs fn inside a testing/synctest bubble for a check whose Spec.Bubble
+// is false (checks that mix virtual-time and real-time cases).
+func RunBubble(c *Case, fn func()) {
+	defer func() {
+		runtime.GC()
+		runtime.GC()
+	}()
+	outerT := c.T
+	synctest.Test(c.T, func(bt *testing.T) {
+		c.T = bt
+		c.Bubble = true
+		defer func() {
+			c.Bubble = false
+			c.T = outerT
+		}()
+		fn()
+	})
+}
+
 var reHex = regexp.MustCompile(`0x[0-9a-f]+|\b[0-9]{3,}\b`)
 
 func panicClass(r any, stack string) string {
@@ -440,6 +470,29 @@ func blockedCentrifugeFrames(dump string) string {
 		}
 	}
 	return strings.Join(out, "\n\n")
+}
+
+// anyRunnable reports whether a full goroutine dump shows a goroutine that is
+// running or runnable, not counting the one that took the dump.
+func anyRunnable(dump string) bool {
+	for _, g := range strings.Split(dump, "\n\n") {
+		if !strings.HasPrefix(g, "goroutine ") {
+			continue
+		}
+		i := strings.Index(g, "[")
+		j := strings.Index(g, "]")
+		if i < 0 || j < i {
+			continue
+		}
+		state := g[i+1 : j]
+		if strings.HasPrefix(state, "running") || strings.HasPrefix(state, "runnable") {
+			if strings.Contains(g, "runtime.Stack") {
+				continue
+			}
+			return true
+		}
+	}
+	return false
 }
 
 func cpuTime() time.Duration {
